@@ -143,7 +143,29 @@ DoStep(r) ==
       known == ~isEnv /\ a \in DOMAIN st.pc /\ st.pc[a] = r.site /\ r.site \in Modelled
       E == IF isEnv THEN [st |-> EffAdvance(st, r.op.d), ret |-> NoRet]
            ELSE IF known THEN Eff(st, a, inp) ELSE [st |-> st, ret |-> NoRet]
-      A == Adopted(E.st, r)
+      A0 == Adopted(E.st, r)
+      \* the position of a multi-key read follows the OBSERVED lookups (one C_Get step each), whatever the model predicted
+      A == IF ~isEnv /\ IsCaller(a) /\ r.site \in {"C_Get", "C_Access"} /\ r.op.op \in {"get", "mget"} /\ a \in DOMAIN gh.obs
+              /\ r.next \in {"C_Get", "C_Access"}
+           THEN LET ks == ReadKeySeq(r.op)
+                    done == Len(gh.obs[a]) + (IF r.site = "C_Get" THEN 1 ELSE 0)
+                    from == IF r.next = "C_Access" THEN done ELSE done + 1
+                IN [A0 EXCEPT !.lc[a].keys = IF from >= 1 /\ from <= Len(ks) THEN SubSeq(ks, from, Len(ks)) ELSE <<>>,
+                              !.lc[a].op = r.op]
+           ELSE IF ~isEnv /\ a = "worker" /\ r.site \in {"W_Recv", "W_Drain"} /\ HasEv(r, "recv")
+                   /\ EvF(r, "recv")[1] \in DOMAIN st.cmds /\ st.queue # <<>> /\ Head(st.queue).ack # EvF(r, "recv")[1]
+           THEN \* the worker received another command than the head of the model's queue (C11 judges that): follow the code
+                LET c == st.cmds[EvF(r, "recv")[1]]
+                    pos == {i \in DOMAIN st.queue : st.queue[i].ack = c.ack}
+                    q2 == IF pos = {} THEN st.queue ELSE LET i == CHOOSE x \in pos : TRUE IN SubSeq(st.queue, 1, i - 1) \o SubSeq(st.queue, i + 1, Len(st.queue))
+                IN [A0 EXCEPT !.queue = q2,
+                              !.lc[a] = IF r.site = "W_Drain" THEN NoLc ELSE [NoLc EXCEPT !.cmd = c, !.id = c.id, !.w = c.w, !.key = c.key]]
+           ELSE IF ~isEnv /\ a = "sweeper" /\ HasEv(r, "sweep")
+           THEN [A0 EXCEPT !.lc[a].t = EvF(r, "sweep")[1], !.lc[a].shard = EvF(r, "sweep")[3],
+                           !.lc[a].id = IF r.next = "K_DelKw" THEN r.narg ELSE @]
+           ELSE IF ~isEnv /\ a = "sweeper" /\ r.next = "K_DelKw"
+           THEN [A0 EXCEPT !.lc[a].id = r.narg]
+           ELSE A0
       \* values near i64::MAX / Duration::MAX are clamped in the trace (two-zone encoding): arithmetic on them is outside the model's range
       oor == \/ A.used >= Huge \/ st.used >= Huge \/ A.used <= -Huge
              \/ \E id \in DOMAIN A.kw : A.kw[id].w >= Huge
